@@ -55,6 +55,19 @@ void ob_c01_offset_narrow(const std::array<TI,R>& idx, const std::array<TS,R>& s
     auto off = ix::compute_offset(idx,st);
     OBLIGE("C01.O2.offset_widened_before_multiply", (nm_size_t)off==e, sizeof(TI)*10+sizeof(TS), R);
 }
+// O2 with indices and strides of DIFFERENT container kinds (the multi-index a(i,j,k) packs is a fixed-length array or tuple, the strides of a
+// run-time-rank array are a run-time-length container, and the other way round)
+template <class KI, class KS, size_t R>
+void ob_c01_offset_mixed(const mk_t<KI,size_t,R>& idx, const mk_t<KS,size_t,R>& st)
+{
+    assume_len<R>(idx); assume_len<R>(st);
+    nm_size_t e = 0;
+    for_<R>([&](auto I){ e += (nm_size_t)rd<I.value>(idx) * (nm_size_t)rd<I.value>(st); });
+    auto off = ix::compute_offset(idx,st);
+    OBLIGE("C01.O2.offset_mixed_container_kinds", (nm_size_t)off==e, kid<KI>*10+kid<KS>, R);
+}
+#define MIX(KI,KS) template void ob_c01_offset_mixed<KI,KS,1>(const mk_t<KI,size_t,1>&, const mk_t<KS,size_t,1>&); template void ob_c01_offset_mixed<KI,KS,2>(const mk_t<KI,size_t,2>&, const mk_t<KS,size_t,2>&); template void ob_c01_offset_mixed<KI,KS,3>(const mk_t<KI,size_t,3>&, const mk_t<KS,size_t,3>&);
+MIX(k_std,k_sv) MIX(k_sv,k_std) MIX(k_tup,k_sv) MIX(k_sv,k_tup) MIX(k_std,k_tup) MIX(k_tup,k_std) MIX(k_utl,k_sv) MIX(k_std,k_utl)
 // O3: compute_indices(off,shape)[i] < shape[i]  and == (off / prod_{j>i} s[j]) % s[i]
 template <class K, size_t R>
 void ob_c01_indices(size_t off, const mk_t<K,size_t,R>& s)
